@@ -52,6 +52,7 @@ struct Inner {
     counters: BTreeMap<String, u64>,
     distinct: HashSet<u128>,
     distinct_nontrivial: u64,
+    engine_cases: u64,
     outcomes: HashSet<u128>,
     samples: Vec<Value>,
     assumptions: Vec<String>,
@@ -126,6 +127,7 @@ impl Run {
                 counters: BTreeMap::new(),
                 distinct: HashSet::new(),
                 distinct_nontrivial: 0,
+                engine_cases: 0,
                 outcomes: HashSet::new(),
                 samples: vec![],
                 assumptions: vec![],
@@ -173,6 +175,14 @@ impl Run {
         if g.distinct.insert(k) && nontrivial {
             g.distinct_nontrivial += 1;
         }
+    }
+    /// Cases counted by an engine itself (BFS: transitions evaluated / distinct states; schedule DFS: executions /
+    /// executions with a real choice) — distinct by construction.
+    pub fn add_cases(&self, evaluations: u64, distinct_nontrivial: u64) {
+        let mut g = self.inner.lock().unwrap();
+        *g.counters.entry("evaluations".into()).or_insert(0) += evaluations;
+        g.distinct_nontrivial += distinct_nontrivial;
+        g.engine_cases += distinct_nontrivial;
     }
     /// Record an observed outcome (for the "distinct outcomes" vacuity indicator).
     pub fn outcome(&self, key: &[u8]) {
@@ -278,6 +288,7 @@ impl Run {
                     counters: BTreeMap::new(),
                     distinct: HashSet::new(),
                     distinct_nontrivial: 0,
+                engine_cases: 0,
                     outcomes: HashSet::new(),
                     samples: vec![],
                     assumptions: vec![],
@@ -299,7 +310,7 @@ impl Run {
         let evaluations = *g.counters.get("evaluations").unwrap_or(&0);
         cov.insert("evaluations".into(), json!(evaluations));
         cov.insert("distinct_nontrivial".into(), json!(g.distinct_nontrivial));
-        cov.insert("distinct_cases".into(), json!(g.distinct.len()));
+        cov.insert("distinct_cases".into(), json!(g.distinct.len() as u64 + g.engine_cases));
         cov.insert("distinct_outcomes".into(), json!(g.outcomes.len()));
         cov.insert("rule".into(), json!(g.rule));
         cov.insert("samples".into(), json!(g.samples));
